@@ -212,3 +212,79 @@ func PolicyProduct(do func(id string, c Case)) {
 		}
 	}
 }
+
+// ReconnectProduct (C21): peer transmissions travel through the connection and the speaker's REAL
+// msgReceiver goroutine (session init 'r'). Each of OpenSent / OpenConfirm / Established is reached on
+// the second and on the third connection of the same FSM, after the previous connection(s) ended by each
+// kind of exit (peer closed + hold timer, NOTIFICATION, hold timer, malformed message); there every
+// malformed-message class and the continuation of a valid conversation is delivered. A speaker that does
+// not react to a complete message is reported as wedged.
+func ReconnectProduct(do func(id string, c Case)) {
+	cfg := "s65001/65002/10/90/46/0000/0/00/0.0/A/r"
+	open := "0.m:O,4,65002,90,7,a65002+m1.1+m2.1"
+	up := "0.e1 0.up"
+	reach := map[byte]string{'S': up, 'F': up + " " + open, 'E': up + " " + open + " 0.m:K 0.m:U,1.2,-"}
+	exits := []struct{ name, evs string }{
+		{"peer-closed", "0.pc 0.hp1"},
+		{"notification", "0.m:N,6,2"},
+		{"hold-timer", "0.hp1"},
+		{"malformed", "0.m:H,0,19,4,0"},
+	}
+	probes := []string{
+		"m:H,0,19,4,0", "m:H,1,18,4,0", "m:H,1,4097,2,0", "m:H,1,30,9,11", "m:H,1,20,4,1", "m:B,ovt", "m:B,uat",
+		"m:O,3,65002,90,7,a65002", "m:K", "m:U,3,-", "m:N,6,4", open[2:],
+	}
+	for _, prevState := range "SFE" {
+		for _, ex := range exits {
+			for _, target := range "SFE" {
+				for _, nth := range []int{2, 3} {
+					for pi, pr := range probes {
+						in := cfg
+						for k := 1; k < nth; k++ {
+							in += " " + reach[byte(prevState)] + " " + ex.evs
+						}
+						in += " " + reach[byte(target)] + " 0." + pr + " 0.e1 0.up"
+						c, err := ParseCase(in)
+						if err != nil {
+							fmt.Printf("HARNESS-ERROR reconnect product %q: %v\n", in, err)
+							return
+						}
+						do(fmt.Sprintf("recon-%c-%s-%c-%d-%d", prevState, ex.name, target, nth, pi), c)
+					}
+				}
+			}
+		}
+	}
+}
+
+// AddPathTupleProduct (C22): independent add-path receive/send configuration per family x the peer's
+// ADD-PATH capability as one capability with two tuples (either order), two capabilities, or a single
+// tuple x every send/receive value per tuple.
+func AddPathTupleProduct(do func(id string, c Case)) {
+	for ap := 0; ap < 16; ap++ {
+		apS := fmt.Sprintf("%04b", ap)
+		cfg := fmt.Sprintf("s65001/65002/10/90/46/%s/0/00/0.0/A/i", apS)
+		for sr4 := 1; sr4 <= 3; sr4++ {
+			for sr6 := 1; sr6 <= 3; sr6++ {
+				variants := []string{
+					fmt.Sprintf("q1.1.%d_2.1.%d", sr4, sr6),
+					fmt.Sprintf("q2.1.%d_1.1.%d", sr6, sr4),
+					fmt.Sprintf("p1.1.%d+p2.1.%d", sr4, sr6),
+					fmt.Sprintf("p2.1.%d+p1.1.%d", sr6, sr4),
+					fmt.Sprintf("q1.1.%d", sr4),
+					fmt.Sprintf("q2.1.%d", sr6),
+					fmt.Sprintf("q1.1.%d_1.4.%d_2.1.%d", sr4, sr6, sr6),
+				}
+				for vi, v := range variants {
+					in := fmt.Sprintf("%s 0.e1 0.up 0.m:O,4,65002,30,7,a65002+m2.1+%s 0.m:K 0.m:U,1,-", cfg, v)
+					c, err := ParseCase(in)
+					if err != nil {
+						fmt.Printf("HARNESS-ERROR add-path product %q: %v\n", in, err)
+						return
+					}
+					do(fmt.Sprintf("aptuple-%s-%d%d-%d", apS, sr4, sr6, vi), c)
+				}
+			}
+		}
+	}
+}
